@@ -546,7 +546,10 @@ def _insert_proofs(body, ex, fn_disp):
     for where, stmt, ptxt in ex.proofs:
         if where == "begin":
             # no statement anchor: the proof text opens the function body (robust against any edit of the body)
-            body = "\n    proof { %s }\n    " % ptxt + body
+            if re.match(r"\s*(let ghost|let tracked)\b", ptxt):
+                body = "\n    %s\n    " % ptxt + body     # ghost declarations must stay in the function's scope
+            else:
+                body = "\n    proof { %s }\n    " % ptxt + body
             continue
         rx = re.compile(_tok_regex(stmt))
         ms = list(rx.finditer(body))
